@@ -158,6 +158,8 @@ pub fn abelian_invariants<'a, I>(nr_gens: usize, rels: I)
     -> Vec<usize>
     where I: IntoIterator<Item=&'a FreeWord>
 {
+    #[cfg(rust_dsymbols_verif)]
+    crate::verif_hooks::probe("fpgroups::abelian_invariants");
     let mut mat: Vec<_> = rels.into_iter()
         .map(|w| relator_as_vector(nr_gens, w))
         .collect();
